@@ -9,6 +9,7 @@ from vlib import gen, observe, pdbio, common
 from vlib.pdbio import Atom
 
 PROPERTY = "C05"
+REDUCE_KEYS = ["part_a", "part_b"]
 LEVEL = "exploration"
 RULE = ("pairs (A, B) of generated structures (B independent or a copy of A, incl. ligands/ions, the copy keeping A's "
         "chain ids with shifted residue numbers or getting fresh chain ids) x B moved by an exact grid motion so that "
